@@ -222,6 +222,7 @@ func init() {
 					c.Violation("mutations", "decode-panic", what+": "+pan, nil, kase, nil)
 				case hung:
 					c.Violation("mutations", "decode-hang", what, nil, kase, nil)
+					c.AbortAfterHang()
 				case alloc > uint64(64*len(mut)+256<<10):
 					c.Violation("mutations", "decode-allocation-unbounded", fmt.Sprintf("%s of a %d-byte record allocated %d bytes", what, len(mut), alloc), nil, kase, nil)
 				case mustErr && derr == nil:
